@@ -68,8 +68,48 @@ func (e *enc) entryEnv() *Env {
 	return &Env{vars: e.params, cur: e.state, old: e.initSt, e: e}
 }
 
+// collectDebugRefs records, for every source-level variable, the SSA values that carry it anywhere in the
+// function (a value may be named only by a reference that comes later in the block order than a loop head
+// whose invariant mentions it; it is usable wherever its definition dominates).
+func (e *enc) collectDebugRefs() {
+	e.dbgObj = map[ssa.Value]map[string]types.Object{}
+	for _, b := range e.fn.Blocks {
+		for _, in := range b.Instrs {
+			x, ok := in.(*ssa.DebugRef)
+			if !ok {
+				continue
+			}
+			obj := x.Object()
+			if obj == nil {
+				continue
+			}
+			if c, isConst := x.X.(*ssa.Const); isConst && c.Value == nil {
+				continue // zero-value placeholder of a declaration
+			}
+			key := obj.Name()
+			if x.IsAddr {
+				key = "&" + key
+			}
+			dup := false
+			for _, old := range e.dbg[key] {
+				if old == x.X {
+					dup = true
+				}
+			}
+			if !dup {
+				e.dbg[key] = append(e.dbg[key], x.X)
+			}
+			if e.dbgObj[x.X] == nil {
+				e.dbgObj[x.X] = map[string]types.Object{}
+			}
+			e.dbgObj[x.X][key] = obj
+		}
+	}
+}
+
 func (e *enc) run() {
 	fn := e.fn
+	e.collectDebugRefs()
 	e.findLoops()
 	e.curReach = "true"
 	// parameters
@@ -381,20 +421,8 @@ func (e *enc) loopEnv(h *ssa.BasicBlock, phiOverride map[*ssa.Phi]Val) *Env {
 	}
 	lpos := e.loopPos(h)
 	for name, vs := range e.dbg {
-		// last recorded value whose block dominates h and whose declared variable is in scope at the loop
-		for _, v := range vs {
-			if !e.inScope(v, name, lpos) {
-				continue
-			}
-			if in, ok := v.(ssa.Instruction); ok {
-				if in.Block() != nil && in.Block().Dominates(h) && in.Block() != h {
-					if val, ok := e.vals[v]; ok {
-						vars[name] = val
-					}
-				}
-			} else if val, ok := e.vals[v]; ok {
-				vars[name] = val
-			}
+		if val, ok := e.pickNamed(name, vs, h, true, lpos); ok {
+			vars[name] = val
 		}
 	}
 	for _, in := range h.Instrs {
@@ -641,20 +669,7 @@ func (e *enc) instr(in ssa.Instruction) {
 		if id, ok := x.Expr.(interface{ String() string }); ok {
 			_ = id
 		}
-		if obj := x.Object(); obj != nil {
-			key := obj.Name()
-			if x.IsAddr {
-				key = "&" + key
-			}
-			e.dbg[key] = append(e.dbg[key], x.X)
-			if e.dbgObj == nil {
-				e.dbgObj = map[ssa.Value]map[string]types.Object{}
-			}
-			if e.dbgObj[x.X] == nil {
-				e.dbgObj[x.X] = map[string]types.Object{}
-			}
-			e.dbgObj[x.X][key] = obj
-		}
+		// source names are collected up front (collectDebugRefs)
 	case *ssa.If, *ssa.Jump:
 	case *ssa.Return:
 		e.ret(x)
@@ -1540,4 +1555,44 @@ func (e *enc) framedVars(names []string) []string {
 		out = append(out, n)
 	}
 	return out
+}
+
+// pickNamed chooses, among the SSA values recorded for a source variable, the one that is in force at block `at`:
+// already encoded, in scope at pos, defined in a block that dominates `at` (strictly, for loop heads), and
+// defined latest (deepest in the dominator tree; later in the same block).
+func (e *enc) pickNamed(name string, vs []ssa.Value, at *ssa.BasicBlock, strict bool, pos token.Pos) (Val, bool) {
+	var best ssa.Value
+	var bestBlock *ssa.BasicBlock
+	bestIdx := -1
+	for _, v := range vs {
+		val, ok := e.vals[v]
+		_ = val
+		if !ok || !e.inScope(v, name, pos) {
+			continue
+		}
+		in, isInstr := v.(ssa.Instruction)
+		if !isInstr || in.Block() == nil {
+			if best == nil {
+				best = v
+			}
+			continue
+		}
+		b := in.Block()
+		if at != nil && (!b.Dominates(at) || (strict && b == at)) {
+			continue
+		}
+		idx := 0
+		for i, x := range b.Instrs {
+			if x == in {
+				idx = i
+			}
+		}
+		if bestBlock == nil || (bestBlock != b && bestBlock.Dominates(b)) || (bestBlock == b && idx > bestIdx) {
+			best, bestBlock, bestIdx = v, b, idx
+		}
+	}
+	if best == nil {
+		return Val{}, false
+	}
+	return e.vals[best], true
 }
